@@ -184,6 +184,16 @@ func (p *Prog) keyConstruction(v ssa.Value) (desc string, framed bool) {
 			}
 			continue
 		}
+		// a variable part goes into the key whole: a key cut to its first n bytes lets two chunks whose first keys
+		// share those bytes answer for each other
+		if cutValue(l, 0) {
+			parts = append(parts, "var[cut]")
+			framedOK = false
+			nvars++
+			lastVar = i
+			sepSeen = false
+			continue
+		}
 		parts = append(parts, "var")
 		nvars++
 		if lastVar >= 0 && !sepSeen {
@@ -657,4 +667,23 @@ func ruleRender(p *Prog, r *Result) {
 		}
 		r.add(okv, "NotExpr", p.Pos(fn.Pos()), "a negation renders with a leading `!`")
 	}
+}
+
+// cutValue: v is (on some way) a sub-slice of another value.
+func cutValue(v ssa.Value, d int) bool {
+	if d > 5 {
+		return false
+	}
+	v = stripConv(v)
+	switch x := v.(type) {
+	case *ssa.Slice:
+		return x.Low != nil || x.High != nil
+	case *ssa.Phi:
+		for _, e := range x.Edges {
+			if cutValue(e, d+1) {
+				return true
+			}
+		}
+	}
+	return false
 }
